@@ -158,7 +158,9 @@ class XMLElement(ContainerNode):
             text: Optional[StringNode] = None,
             children: Sequence['XMLElement'] = (),
             allow_key_edits: bool = True,
-            auto_match_keys: bool = True
+            auto_match_keys: bool = True,
+            allow_list_edits: bool = True,
+            allow_list_edits_when_same_length: bool = True
     ):
         """Initializes an XML element.
 
@@ -168,6 +170,9 @@ class XMLElement(ContainerNode):
             text: The text of the element.
             children: The children of the element.
             allow_key_edits: Whether or not to allow keys to be edited when matching element attributes.
+            allow_list_edits: Whether to consider removal and insertion when comparing the children of this element.
+            allow_list_edits_when_same_length: Whether to consider removal and insertion when comparing the children of
+                this element to the same number of children.
         """
         self.tag: StringNode = tag
         """The tag of this element."""
@@ -188,7 +193,11 @@ class XMLElement(ContainerNode):
         """The text of this element."""
         if self.text is not None:
             self.text.quoted = False
-        self._children: XMLElementChildren = XMLElementChildren(children)
+        self._children: XMLElementChildren = XMLElementChildren(
+            children,
+            allow_list_edits=allow_list_edits,
+            allow_list_edits_when_same_length=allow_list_edits_when_same_length
+        )
         if isinstance(self, EditedTreeNode):
             self._children = self._children.make_edited()
 
@@ -292,7 +301,9 @@ def build_tree(
         text=text,
         children=[build_tree(child, options) for child in root],
         allow_key_edits=options is None or options.allow_key_edits,
-        auto_match_keys=options is None or options.auto_match_keys
+        auto_match_keys=options is None or options.auto_match_keys,
+        allow_list_edits=options is None or options.allow_list_edits,
+        allow_list_edits_when_same_length=options is None or options.allow_list_edits_when_same_length
     )
 
 
